@@ -413,7 +413,7 @@ func ProcessGetLabelValuesRequest(ctx *fasthttp.RequestCtx, myid int64) {
 		return
 	}
 
-	searchText := fmt.Sprintf(`(fake_metricname{%s="*"})`, labelName)
+	searchText := fmt.Sprintf(`(fake_metricname{%s=~".*"})`, labelName)
 	metricQueryRequest, _, _, err := ConvertPromQLToMetricsQuery(searchText, startTime, endTime, myid)
 	if err != nil {
 		ctx.SetContentType(ContentJson)
